@@ -108,6 +108,76 @@ def n_mutators(dname, mi, tier):
         return 0
 
 
+def _intermediate_bases(drv, obj, A, tag, viol, excl):
+    """The same idea one level up: what an object inherits from
+    SpatialNetwork / GeoNetwork / InteractingNetworks must be what a plain
+    object of THAT class with the same grid, adjacency and weights reports
+    (queries that the plain Network already answers are not repeated)."""
+    from pyunicorn.core import (Network, SpatialNetwork, GeoNetwork,
+                                InteractingNetworks)
+    cls = drv.cls()
+    ev = 0
+    builders = []
+    if issubclass(cls, GeoNetwork) and cls is not GeoNetwork:
+        def mk_geo():
+            g = GeoNetwork(grid=obj.grid, adjacency=A.copy(),
+                           directed=bool(obj.directed),
+                           node_weight_type=None, silence_level=3)
+            g.node_weights = np.asarray(obj.node_weights, float).copy()
+            return g
+        builders.append((GeoNetwork, "GeoNetwork", mk_geo))
+    elif issubclass(cls, SpatialNetwork) and cls is not SpatialNetwork:
+        def mk_sp():
+            g = SpatialNetwork(grid=obj.grid, adjacency=A.copy(),
+                               directed=bool(obj.directed), silence_level=3)
+            g.node_weights = np.asarray(obj.node_weights, float).copy()
+            return g
+        builders.append((SpatialNetwork, "SpatialNetwork", mk_sp))
+    if issubclass(cls, InteractingNetworks) and \
+            cls is not InteractingNetworks:
+        builders.append((InteractingNetworks, "InteractingNetworks",
+                         lambda: InteractingNetworks(
+                             adjacency=A.copy(), directed=bool(obj.directed),
+                             node_weights=np.asarray(obj.node_weights,
+                                                     float).copy(),
+                             silence_level=3)))
+    for base, bname, mk in builders:
+        bd = D.DRIVERS.get(bname)
+        try:
+            plain = mk()
+        except Exception:   # noqa
+            excl["no plain %s from this object" % bname] = 1
+            continue
+        if obj.n_links:
+            for nm in obj.graph.es.attributes():
+                try:
+                    plain.set_link_attribute(nm, np.asarray(
+                        obj.link_attribute(nm)))
+                except Exception:   # noqa
+                    pass
+        known = set(D.qlabel(q) for q in D.discover(Network))
+        for q in D.discover(base, deny=getattr(bd, "deny", ())):
+            meth = q[0]
+            if D.qlabel(q) in known:
+                continue
+            if getattr(cls, meth, None) is not getattr(base, meth, None):
+                continue
+            g = outcome(drv.call, obj, q)
+            e = outcome(drv.call, plain, q)
+            ev += 1
+            if same_outcome(g, e, **drv.tol):
+                continue
+            kind = "raises" if (g[0] == "exc" and e[0] != "exc") else "value"
+            viol.append(V(
+                "%s.%s:inherited!=%s:%s%s" % (drv.name, D.qpattern(q), bname,
+                                              kind, tag),
+                "%s on a %s object differs from the plain %s with the same "
+                "grid, adjacency and weights" % (D.qlabel(q), drv.name,
+                                                 bname),
+                brief(g), brief(e)))
+    return ev
+
+
 def _compare_with_plain(drv, obj, dname, mi, tag):
     from pyunicorn.core import Network
     cls = drv.cls()
@@ -164,5 +234,6 @@ def _compare_with_plain(drv, obj, dname, mi, tag):
             "adjacency, weights and link attributes" % (D.qlabel(q),
                                                        drv.name),
             brief(g), brief(e)))
+    ev += _intermediate_bases(drv, obj, A, tag, viol, excl)
     return {"viol": viol, "evals": ev, "excluded": excl,
             "sig": (dname, mi, ev, tag), "trivial": False}
